@@ -20,6 +20,18 @@ def dedup (l : List RuleK) : List RuleK := l.foldl (fun acc r => if acc.contains
 def rkLt (a b : RuleK) : Bool := a.1 < b.1 || (a.1 == b.1 && decide (a.2 < b.2))
 def showRules (l : List RuleK) : String :=
   ";".intercalate (((dedup l).toArray.qsort rkLt).toList.map (fun r => s!"{r.1}:{",".intercalate (r.2.map toString)}"))
+def refRules (n : Nat) (evs : List (Nat × List Nat × Nat)) : List RuleK :=
+  let E : List (Nat × Nat) := evs.flatMap (fun (s, es, k) =>
+    match es, k with
+    | [e], 2 => if s == e then [] else [(s, e), (e, s)]
+    | [e], 1 => if s == e then [] else [(s, e)]
+    | _, _ => [])
+  let rep (l : Nat) : Nat := ((List.range n).find? (fun m => sccB E l m == some true)).getD l
+  dedup (evs.filterMap (fun (s, es, _) =>
+    match es with
+    | [e] => if rep s == rep e then none else some (rep s, [rep e])
+    | _ => some (rep s, (es.map rep).mergeSort)))
+
 def specRef (n root : Nat) (iter : Bool) (evs : List (Nat × List Nat × Nat)) : String :=
   let E : List (Nat × Nat) := evs.flatMap (fun (s, es, k) =>
     match es, k with
@@ -42,6 +54,11 @@ partial def loop (h : IO.FS.Stream) (R : List RuleK) : IO Unit := do
       match n.toNat?, root.toNat?, it.toNat?, (if evs = "-" then some [] else (evs.splitOn ";").mapM parseEv) with
       | some n, some root, some it, some evs => IO.println (specRef n root (it == 1) evs); loop h R
       | _, _, _, _ => IO.println "bad-op"; loop h R
+    | ["dbt", n, evs, ns] =>
+      -- a tree returned through the real database (labels = least members of the classes) against the recorded rules up to equivalence
+      match n.toNat?, (if evs = "-" then some [] else (evs.splitOn ";").mapM parseEv), (ns.splitOn ";").mapM parseRK with
+      | some n, some evs, some ns => IO.println (if checkTree (refRules n evs) ns then "tree-ok" else "tree-BAD"); loop h R
+      | _, _, _ => IO.println "bad-op"; loop h R
     | ["rd", rs] =>
       match (if rs = "-" then some [] else (rs.splitOn ";").mapM parseRK) with
       | some R' => IO.println ("prune " ++ showRules (prune R')); loop h R'
